@@ -1,6 +1,7 @@
 package main
 
 import (
+	"strings"
 	"go/token"
 	"go/types"
 
@@ -57,6 +58,12 @@ func (a *freshAn) fresh(v ssa.Value) bool {
 		}
 		if cloneLike[calleeFullName(&v.Call)] {
 			return true
+		}
+		// library functions that return their first argument extended (strconv.AppendQuote, utf8.AppendRune, fmt.Appendf,
+		// slices.Grow/Insert): as fresh as that argument
+		if n := calleeFullName(&v.Call); len(v.Call.Args) > 0 && (strings.HasPrefix(n, "strconv.Append") || strings.HasPrefix(n, "unicode/utf8.Append") ||
+			strings.HasPrefix(n, "unicode/utf16.Append") || strings.HasPrefix(n, "fmt.Append") || n == "slices.Grow" || n == "slices.Insert" || n == "slices.AppendSeq") {
+			return a.fresh(v.Call.Args[0])
 		}
 		return false
 	case *ssa.UnOp:
